@@ -413,7 +413,7 @@ func portHeldBySelf(proto string, port int) bool {
 // describeSockets looks the inodes up in /proc/net/{tcp,udp}.
 func describeSockets(inodes []string) []string {
 	var out []string
-	for _, f := range []string{"/proc/net/tcp", "/proc/net/udp"} {
+	for _, f := range []string{"/proc/net/tcp", "/proc/net/udp", "/proc/net/tcp6", "/proc/net/udp6"} {
 		data, err := os.ReadFile(f)
 		if err != nil {
 			continue
@@ -774,8 +774,16 @@ func c12placement(rep *vh.Report, r *vh.RNG, kind, point string, k int, consumer
 	rep.Count("socket_fd_checks", 1)
 	if len(leaked) > 0 {
 		sort.Strings(leaked)
-		rep.Violation("what=port:fd", fmt.Sprintf("%d socket(s) opened during the scenario are still held by the process 3 s after Close returned and the peers closed theirs", len(leaked)),
-			map[string]interface{}{"scenario": kind, "close_placed_at": where, "sockets": describeSockets(leaked)})
+		// the property speaks of listening ports and connections: a socket is judged when it can be named as one (it is in the
+		// kernel's TCP / UDP tables, IPv4 or IPv6). A descriptor of another family (netlink, unix) or one that is gone before it
+		// can be looked up is counted and reported as an observation, not judged
+		if desc := describeSockets(leaked); len(desc) > 0 {
+			rep.Violation("what=port:fd", fmt.Sprintf("%d socket(s) opened during the scenario are still held by the process 3 s after Close returned and the peers closed theirs", len(desc)),
+				map[string]interface{}{"scenario": kind, "close_placed_at": where, "sockets": desc})
+		} else {
+			rep.Count("socket_descriptors_seen_after_close_that_are_no_tcp_or_udp_sockets", len(leaked))
+			rep.Observe(fmt.Sprintf("C12: %d socket descriptor(s) opened during a scenario (%s) were still there 3 s after Close but are in none of the kernel's TCP / UDP tables (another family, or closed before they could be looked up): not judged", len(leaked), kind))
+		}
 	}
 	// (2) no goroutine the node started survives
 	left := waitNoLibGoroutines(func(g string) bool {
